@@ -341,6 +341,13 @@ class WorkflowRecovery:
                             )
                         )
                 elif not_started_tasks and stage.start_time is not None:
+                    # A parent still waiting for its before-stages must not have
+                    # its first task started here: the before-stages drive it via
+                    # ContinueParentStage. Starting the task early runs it ahead
+                    # of (or alongside) the before-stages and, once they finish,
+                    # the parent's StartTask is a no-op and the stage wedges.
+                    if any(not s.status.is_complete for s in stage.before_stages()):
+                        continue
                     first_task = not_started_tasks[0]
                     # Mirror the running-task guard: skip if a message for this
                     # task is already queued, so a recovery sweep overlapping
